@@ -17,6 +17,7 @@ import (
 	"verif/harness/evid"
 	"verif/harness/memconn"
 	"verif/harness/ref"
+	"verif/harness/wsx"
 )
 
 // C13 — Dial sends a well-formed handshake and accepts only a valid server response.
@@ -382,10 +383,22 @@ func c13Verdict(c c13Case) string {
 
 func TestC13(t *testing.T) {
 	rec := evid.For("C13")
-	rec.Rule = "rapid draws DialOptions (URL scheme ws/wss/http/https, caller headers incl. ones the library must override, Host override, 0-3 subprotocols, 3 compression modes) observed by a custom RoundTripper, and a server response built from a valid one by 0-2 mutations over status {101,200,204,301,400,426,500,100,102}, Connection/Upgrade variants, accept key {correct, for another key, missing, case-changed, truncated}, subprotocol {none, requested, other case, unrequested, empty}, 17 extension header variants. Independent predicates check the request and decide whether the response may be accepted (ok / bad / either). Keys of 200 Dials are pairwise distinct; thorough re-runs that in a second process and requires disjoint sets. Non-trivial: a response valid in all but one respect, or valid with multi-token headers. distinct = hash(options, response)."
+	rec.Rule = "rapid draws DialOptions (URL scheme ws/wss/http/https, caller headers incl. ones the library must override, Host override, 0-3 subprotocols, 3 compression modes) observed by a custom RoundTripper, in a quarter of the cases after the same process has accepted a connection with a drawn (mode, offer), and a server response built from a valid one by 0-2 mutations over status {101,200,204,301,400,426,500,100,102}, Connection/Upgrade variants, accept key {correct, for another key, missing, case-changed, truncated}, subprotocol {none, requested, other case, unrequested, empty}, 17 extension header variants. Independent predicates check the request and decide whether the response may be accepted (ok / bad / either). Keys of 200 Dials are pairwise distinct; thorough re-runs that in a second process and requires disjoint sets. Non-trivial: a response valid in all but one respect, or valid with multi-token headers. distinct = hash(options, response)."
 	rapid.Check(t, func(rt *rapid.T) {
 		c := genC13(rt)
 		hdrBefore := c.Header.Clone()
+		if rapid.IntRange(0, 3).Draw(rt, "history") == 0 {
+			// process history: the same process has served a handshake before. What Dial
+			// sends must be a function of its own options, not of what other endpoints
+			// of the process negotiated.
+			hm := rapid.SampledFrom(c01Modes).Draw(rt, "historyMode")
+			ho := rapid.SampledFrom([]string{"permessage-deflate", "permessage-deflate; client_no_context_takeover; server_no_context_takeover",
+				"permessage-deflate; client_no_context_takeover", "permessage-deflate; server_no_context_takeover", "permessage-deflate; client_max_window_bits"}).Draw(rt, "historyOffer")
+			if sv, herr := wsx.Accept(wsx.ServerCfg{Mode: hm, Offer: ho}); herr == nil {
+				sv.Conn.CloseNow()
+				sv.Peer.Close()
+			}
+		}
 		conn, err, seen, _ := doC13(c)
 		if conn != nil {
 			defer conn.CloseNow()
